@@ -252,7 +252,11 @@ func execute(c Case) ([]*execution, error) {
 				}
 				ex.err = err
 			case "update":
-				r, err := f.rt.A.UpdateContainer(ctx, &api.UpdateContainerRequest{Pod: proto.Clone(ex.pod).(*api.PodSandbox), Container: ct, LinuxResources: reqResources(c)})
+				rr := reqResources(c)
+				if len(c.Req) == 0 && c.Orig.NilParts {
+					rr = nil // an update request without a resources section at all
+				}
+				r, err := f.rt.A.UpdateContainer(ctx, &api.UpdateContainerRequest{Pod: proto.Clone(ex.pod).(*api.PodSandbox), Container: ct, LinuxResources: rr})
 				if r != nil {
 					ex.resp = r
 				}
